@@ -376,6 +376,7 @@ class C02(Property):
         ("antismash/detection/hmm_detection/__init__.py", "_get_rule_files_for_strictness"),
         ("antismash/detection/hmm_detection/__init__.py", "get_ruleset"),
         ("antismash/detection/hmm_detection/__init__.py", "_get_rules"),
+        ("antismash/detection/hmm_detection/__init__.py", "check_options"),
         ("antismash/detection/hmm_detection/__init__.py", "_STRICTNESS_LEVELS"),
         ("antismash/common/hmm_rule_parser/cluster_prediction.py", "Ruleset.__post_init__"),
         ("antismash/common/hmm_rule_parser/cluster_prediction.py", "Ruleset.copy_with_replacements"),
@@ -394,7 +395,8 @@ class C02(Property):
             "tokeniser alone on random character strings; thorough/deep: every token string of length <= 6 (5) over "
             "{a,b,and,or,not,(,),cds} after a fixed header; sequences of 2-6 hmm_detection.get_ruleset() calls in one "
             "process through build_config (taxon, fungal multipliers incl. defaults and invalid ones, rule/category "
-            "limits, repeated requests), every ruleset read when returned and again after the last call, checked "
+            "limits, repeated requests; in half of the steps preceded by check_options, whose verdict is checked against "
+            "the Lean spec `optionsOk`), every ruleset read when returned and again after the last call, checked "
             "against the Lean spec `wanted` (shipped rules restricted and scaled once); Ruleset.from_files with "
             "multipliers.  non-trivial = an accepted file with a condition of "
             "depth >= 2, or a rejected corruption of one; distinct by text")
@@ -564,6 +566,8 @@ class C02(Property):
             step["cats"] = rng.sample(self.SOME_CATS, rng.choice([1, 2]))
         if rng.random() < 0.04:
             step[rng.choice(["cmul", "nmul"])] = rng.choice([0.0, -1.0])
+        # antiSMASH proper runs check_options (which builds and caches the ruleset) before the analysis asks for it
+        step["check"] = rng.random() < 0.5
         return step
 
     def ruleset_cases(self, rng: random.Random, count: int) -> Iterator[Dict[str, Any]]:
@@ -572,6 +576,13 @@ class C02(Property):
             {"strictness": "relaxed", "taxon": "fungi", "cmul": 2.0, "nmul": 1.5, "names": [], "cats": []},
             {"strictness": "relaxed", "taxon": "bacteria", "cmul": None, "nmul": None, "names": [], "cats": []},
             {"strictness": "relaxed", "taxon": "fungi", "cmul": 1.0, "nmul": 3.0, "names": ["T1PKS", "NRPS"], "cats": []}]}
+        # every way check_options can object, each once, between two requests that are fine
+        base = {"strictness": "strict", "taxon": "bacteria", "cmul": None, "nmul": None, "names": [], "cats": [], "check": True}
+        yield {"kind": "rulesets", "steps": [
+            dict(base, taxon="fungi", cmul=0.5),
+            dict(base, cmul=0.0), dict(base, nmul=-1.0), dict(base, taxon="fungi", nmul=0.0),
+            dict(base, names=["T1PKS", "no-such-rule"]), dict(base, cats=["PKS", "no-such-category"]),
+            dict(base, strictness="relaxed", names=["T1PKS"], cats=["PKS"], taxon="fungi")]}
         for _ in range(count):
             level = rng.choice(["strict", "relaxed", "relaxed", "loose"])
             steps = []
@@ -747,13 +758,20 @@ class C02(Property):
                              "fungi": options.taxon == "fungi",
                              "cmul": list(float(options.hmmdetection_fungal_cutoff_multiplier).as_integer_ratio()),
                              "nmul": list(float(options.hmmdetection_fungal_neighbourhood_multiplier).as_integer_ratio())})
+                extra: Dict[str, Any] = {}
+                if step.get("check"):
+                    reqs[-1]["check"] = True
+                    try:
+                        extra["check"] = not hd.check_options(options)
+                    except Exception as exc:  # pylint: disable=broad-except
+                        extra["check"] = self._kind(exc)
                 try:
                     ruleset = hd.get_ruleset(options)
                 except Exception as exc:  # pylint: disable=broad-except
-                    steps.append({"err": self._kind(exc)})
+                    steps.append({"err": self._kind(exc), **extra})
                     handed.append(None)
                     continue
-                steps.append({"rules": self._rows(ruleset)})
+                steps.append({"rules": self._rows(ruleset), **extra})
                 handed.append(ruleset)
             final = [self._rows(rs) if rs is not None else None for rs in handed]
         finally:
@@ -898,6 +916,14 @@ class C02(Property):
                     detail = (f"the ruleset handed out by call {i + 1} ({self._step_args(case['steps'][i])}) no longer "
                               f"holds its scaled distances after the later calls: first rule now {(obs['final'][i] or [None])[:1]}, "
                               f"was {obs['steps'][i].get('rules', [None])[:1]}")
+                    break
+        if spec_ok:
+            for i, ok in enumerate(spec.get("checks", [])):
+                if ok is False:
+                    spec_ok = False
+                    detail = (f"check_options at call {i + 1} ({self._step_args(case['steps'][i])}) "
+                              f"{'reported no issue for' if obs['steps'][i].get('check') else 'refused'} options that are "
+                              f"{'not ' if obs['steps'][i].get('check') else ''}fine (positive multipliers, known rule names and categories)")
                     break
         if not corr and not detail:
             detail = "rulesets: model and implementation differ"
